@@ -229,12 +229,36 @@ func expectFieldRS(out map[string]*schema_j5pb.RootSchema, pkg, parent string, f
 		if rs != nil && rs.Array && (rs.MinItems != nil || rs.MaxItems != nil || rs.Unique != nil) {
 			af.Rules = &schema_j5pb.ArrayField_Rules{MinItems: rs.MinItems, MaxItems: rs.MaxItems, UniqueItems: rs.Unique}
 		}
+		if sf := attrString(f.Attrs, "ext.singleForm"); sf != nil {
+			af.Ext = &schema_j5pb.ArrayField_Ext{SingleForm: sf}
+		}
 		return &schema_j5pb.Field{Type: &schema_j5pb.Field_Array{Array: af}}
 	case TMap:
-		return &schema_j5pb.Field{Type: &schema_j5pb.Field_Map{Map: &schema_j5pb.MapField{
+		mf := &schema_j5pb.MapField{
 			ItemSchema: expectField(out, pkg, parent, f, t.Elem),
 			KeySchema:  &schema_j5pb.Field{Type: &schema_j5pb.Field_String_{String_: &schema_j5pb.StringField{}}}, // map keys are strings
-		}}}
+		}
+		if sf := attrString(f.Attrs, "ext.singleForm"); sf != nil {
+			mf.Ext = &schema_j5pb.MapField_Ext{SingleForm: sf}
+		}
+		for _, a := range f.Attrs {
+			var v uint64
+			if _, err := fmt.Sscanf(a, "rules.minPairs = %d", &v); err == nil {
+				if mf.Rules == nil {
+					mf.Rules = &schema_j5pb.MapField_Rules{}
+				}
+				x := v
+				mf.Rules.MinPairs = &x
+			}
+			if _, err := fmt.Sscanf(a, "rules.maxPairs = %d", &v); err == nil {
+				if mf.Rules == nil {
+					mf.Rules = &schema_j5pb.MapField_Rules{}
+				}
+				x := v
+				mf.Rules.MaxPairs = &x
+			}
+		}
+		return &schema_j5pb.Field{Type: &schema_j5pb.Field_Map{Map: mf}}
 	case TObject, TOneof, TEnum:
 		var ref *schema_j5pb.Ref
 		if t.Ref != nil {
@@ -367,4 +391,15 @@ func expectEntity(out map[string]*schema_j5pb.RootSchema, pkg string, e *Entity)
 		data.Properties = append(data.Properties, expectProp(out, pkg, name+"Data", f, int32(i+1)))
 	}
 	out[pkg+"/"+name+"Data"] = &schema_j5pb.RootSchema{Type: &schema_j5pb.RootSchema_Object{Object: data}}
+}
+
+// attrString returns the value of a `path = "value"` body attribute.
+func attrString(attrs []string, path string) *string {
+	for _, a := range attrs {
+		if strings.HasPrefix(a, path+" = \"") {
+			v := strings.TrimSuffix(strings.TrimPrefix(a, path+" = \""), "\"")
+			return &v
+		}
+	}
+	return nil
 }
